@@ -36,7 +36,7 @@ def mc_cfg(consts, invariant, spec="Spec", devs=True):
     c = dict(consts)
     body = consts_text(c)
     if devs:
-        body += "\n  Devs = " + DEVS
+        body += "\n  Devs = " + (devs if isinstance(devs, str) else DEVS)
     return "SPECIFICATION %s\nCONSTANTS\n%s\n%s\nCHECK_DEADLOCK FALSE\n" % (
         spec, body, ("INVARIANT " + invariant) if invariant else "")
 
@@ -46,7 +46,7 @@ def trace_cfg(devs=True, consts=None):
     if devs or consts:
         body = "CONSTANTS\n"
         if devs:
-            body += "  Devs = " + DEVS + "\n"
+            body += "  Devs = " + (devs if isinstance(devs, str) else DEVS) + "\n"
         if consts:
             body += consts_text(consts) + "\n"
     return "SPECIFICATION TSpec\n%sPOSTCONDITION TraceAccepted\nCHECK_DEADLOCK FALSE\n" % body
